@@ -41,6 +41,7 @@ type vcAttr struct {
 	Age       int      `json:"age"`
 	About     string   `json:"about"`   // administrative record: the catalogue bundle the status report is about ("" = some unknown bundle)
 	RKind     string   `json:"rkind"`   // received | forwarded | delivered | deleted
+	OldTs     bool     `json:"oldts"`   // the creation time lies ten minutes in the past
 	RptNone   bool     `json:"rptnone"` // report-to is dtn:none although reports are requested
 	UnkMore   int      `json:"unkmore"` // number of further unsupported blocks (same flags) next to the first, at most 2
 	Desc      bool     `json:"desc"`    // extension blocks on the wire in descending order of their numbers (a foreign node's choice)
@@ -471,6 +472,9 @@ func (w *vcWorld) build(name string) bpv7.Bundle {
 	}
 	if a.Tsg > 0 {
 		ts = w.base.Add(time.Duration(100+a.Tsg) * time.Millisecond)
+	}
+	if a.OldTs {
+		ts = ts.Add(-10 * time.Minute)
 	}
 	life := uint64(24 * 3600 * 1000)
 	if a.Life == "short" {
